@@ -3,7 +3,8 @@ import json
 import common as C
 import dm14h, scen
 
-FILES = ['theories/Base.v', 'theories/gen/Dm14Gen.v', 'theories/Dm14Model.v', 'proofs/Dm14Proofs.v', 'theories/Items.v']
+FILES = ['theories/Base.v', 'theories/gen/Dm14Gen.v', 'theories/Dm14Model.v', 'proofs/Dm14Proofs.v', 'theories/Items.v',
+         'theories/Dm14Srv.v', 'theories/Dm14Replay.v', 'proofs/Dm14SrvProofs.v']
 runner = dm14h.runner
 ITEMS = ['item_dm14_payload', 'item_dm14_fields', 'item_dm15', 'item_dm15_fields', 'item_dm14_v2b', 'item_dm14_b2v', 'item_dm16']
 
@@ -92,8 +93,8 @@ def oracle(sc, res):
 def run(out, tier, rng, work):
     import items, scen, sprop
     out.rule = ('real client facade against real server facade on two real stacks: object count x size = 1..255 bytes (single-frame DM16 up to 7, RTS/CTS above), sizes 1/2/4/8, signed/unsigned, raw/converted, 32-bit pointers, direct/spatial, seed/key on/off with boundary seeds, 1..4 transactions back to back on the same or different objects, latencies (0, 5 ms]; oracle: read returns exactly the served bytes/values, write hands exactly the written bytes, the application is told command/address/pointer type/count/requester, all idle afterwards; item-level correspondence of conversion and layout functions; non-trivial = the client finished at least one operation')
-    out.assumptions = ['A1-A6 of DESIGN.md section 3', 'the three DM14 state machines (query, server, facade) are not modelled in Coq: value conversion, frame layouts, guard and key gate are; transactions are run on the real code (testing)']
-    out.extra['partial'] = ['T17.3-T17.6 (transaction-level theorems over the three state machines) not proved: checked on the real code by the oracle']
+    out.assumptions = ['A1-A6 of DESIGN.md section 3', 'the serving side (DM14Server + serving half of MemoryAccess + the CA subscriber list) is modelled as a state machine (theories/Dm14Srv.v) and tied to the code by operation-sequence correspondence; the client (Dm14Query) and the transport under ca.send_pgn are not: transactions end to end are run on the real code (testing)']
+    out.extra['partial'] = ['the client side (Dm14Query) is modelled at the data level only; the end-to-end transaction (both sides idle afterwards, the application told command/address/count) is checked on the real code by the oracle; server side: T17.4/T17.5 proved on the state machine']
     C.std_proof_stage(out, 'C17', FILES)
     total, mism, errors = items.run_items(ITEMS, rng, 300 if tier == 'quick' else 3000, work, C)
     out.traces_validated = total
@@ -101,6 +102,8 @@ def run(out, tier, rng, work):
         out.broken.append('item correspondence %s did not evaluate: %s' % (e[0], e[1][-200:]))
     for m in mism[:20]:
         out.broken.append('correspondence %s: model and implementation differ on input %s (impl %s)' % (m[0], m[1][:14], m[2][:14]))
+    import dm14srv
+    dm14srv.stage(out, tier, rng, work, C)
     worst = {}
     runs = [(nm, sc) for nm, sc in sprop.load_corpus('C17')] + [('gen-%d' % k, gen(rng, k)) for k in range(120 if tier == 'quick' else 2500)]
     for nm, sc in runs:
